@@ -714,6 +714,22 @@ func (e *Env) call(n *Node, hint *Sym) *Sym {
 			cs = append(cs, mkRaw(fmt.Sprintf("(forall ((r!e Int)) (! (=> (<= r!e ctr0) (= (select %s r!e) (select %s r!e))) :pattern ((select %s r!e))))", cur.S, old.S, cur.S), SBool))
 		}
 		return scalar(types.Typ[types.Bool], mkAnd(cs...))
+	case "istypednil":
+		// istypednil(x): the interface value x holds a nil pointer (of whatever pointer type)
+		v := e.eval(n.Args[0], nil).term()
+		return scalar(types.Typ[types.Bool], mkAnd(app(SBool, "<=", v, mkInt64(-3000000)), app(SBool, ">", v, mkInt64(-4000000))))
+	case "unbox":
+		// unbox(x, "T"): the value of (non-pointer, scalar) type T held by the interface value x
+		v := e.eval(n.Args[0], nil)
+		tn := n.Args[1].Name
+		var t types.Type
+		if bt, ok := basicByName[tn]; ok {
+			t = bt
+		} else {
+			t = e.x.typeByName(tn)
+		}
+		e.x.tid(t)
+		return e.x.unboxAs(v.term(), t, e.st)
 	case "contents":
 		// contents(s): the backing array of slice s as a mathematical array (single-leaf element types);
 		// element i of s is contents(s)[offof(s) + i]
@@ -845,7 +861,12 @@ func (e *Env) call(n *Node, hint *Sym) *Sym {
 	case "asptr":
 		// asptr(x, "pkg.Type"): view the interface/ref value x as a *pkg.Type
 		v := e.eval(n.Args[0], nil)
-		t := e.x.typeByName(n.Args[1].Name)
+		var t types.Type
+		if bt, ok := basicByName[n.Args[1].Name]; ok {
+			t = bt
+		} else {
+			t = e.x.typeByName(n.Args[1].Name)
+		}
 		pt := types.NewPointer(t)
 		// an interface holding the typed nil of *T yields nil, as the type assertion does
 		return &Sym{T: pt, L: []*Term{mkIte(mkEq(v.term(), e.x.typedNil(pt)), mkInt64(0), v.term())}}
